@@ -41,6 +41,10 @@ type KeySetPlan struct {
 	// public name of ANOTHER key of the pool: whenever the target key is held
 	// the hello must be refused (illegal_parameter), whatever else is held.
 	WrongOuterName bool `json:"wrong_outer_name,omitempty"`
+	// WrongID: the hello is sealed to the target (right info string) but its ECH
+	// extension names another config id - one that no key of the pool has, or
+	// (odd values) the id of the first other key: never acceptable.
+	WrongID int `json:"wrong_id,omitempty"`
 	// Parallel: the key list is used by several connections at the same time
 	// (real goroutines, no simulated clock involved): hellos sealed to every key
 	// of the pool, all of them acceptable.
@@ -91,7 +95,15 @@ func executeKeySet(t *testing.T, prop string, seed uint64, p *KeySetPlan) *core.
 		base.Expect = "abort"
 		base.Mutations = []Mutation{{Kind: "outer-sni-other", S: p.Others[0].PublicName}}
 	}
-	never := p.Unlisted || p.BadEnc > 0 || p.WrongOuterName
+	if p.WrongID > 0 {
+		base.Expect = "reject"
+		delta := byte(1 + p.WrongID%250)
+		if p.WrongID%2 == 1 && len(p.Others) > 0 && p.Others[0].ID != base.Target.ID {
+			delta = p.Others[0].ID - base.Target.ID
+		}
+		base.Mutations = []Mutation{{Kind: "wrong-id-ext", A: int(delta) - 1}}
+	}
+	never := p.Unlisted || p.BadEnc > 0 || p.WrongOuterName || p.WrongID > 0
 	b, err := buildScript(seed, &base)
 	if err == errSkip {
 		res.Probe("scenario_skipped")
@@ -342,6 +354,9 @@ func genC09(seed uint64, idx int) *Plan {
 	k.CtxEnds = idx%2 == 0
 	wrongName := !k.Unlisted && k.BadEnc == 0 && idx%8 == 3
 	k.Parallel = !k.Unlisted && k.BadEnc == 0 && idx%8 == 7
+	if !k.Unlisted && k.BadEnc == 0 && idx%8 == 1 {
+		k.WrongID = 1 + idx/8
+	}
 	n := 1 + r.IntN(3)
 	for i := 0; i < n; i++ {
 		o := KeySpec{ID: byte(r.IntN(256)), PublicName: base.Target.PublicName, Suites: genSuites(r), KeySeed: int(r.Uint32()), Retry: true, OwnEncoder: r.IntN(3) == 0}
